@@ -410,12 +410,29 @@ def _explore(cfg, acq_node, var, flagvars):
             if lab == "unhandled-base":
                 # BaseException-only path (KeyboardInterrupt...) is kept: clean-up must still run
                 pass
+            if lab == "exc" and _only_method_refs(cfg.nodes[nid].ast, var):
+                continue      # `return h, h.close` / `r = h.close`: taking a bound method of an open file object does not raise
             nh = hs_exc if lab == "exc" else hs_norm
             nst = (t, nfl, nh)
             if nst not in prev:
                 prev[nst] = st
                 dq.append(nst)
     return None
+
+
+def _only_method_refs(stmt, var):
+    """the statement evaluates nothing but names, constants, tuples and `<var>.close` / `<var>.flush` method references"""
+    if not isinstance(stmt, (ast.Return, ast.Assign)) or stmt.value is None:
+        return False
+    if isinstance(stmt, ast.Assign) and not all(isinstance(t, ast.Name) for t in stmt.targets):
+        return False
+    for sub in ast.walk(stmt.value):
+        if isinstance(sub, (ast.Name, ast.Constant, ast.Tuple, ast.Load)):
+            continue
+        if isinstance(sub, ast.Attribute) and isinstance(sub.value, ast.Name) and sub.value.id == var and sub.attr in ("close", "flush"):
+            continue
+        return False
+    return True
 
 
 def rule_typestate(ctx, only=None):
